@@ -1090,7 +1090,7 @@ static void refill_buffer () {
           {
             /* No more space at the end */
             size = cur_lbuf->buf_end - outptr + 1;	/* Include newline */
-            memcpy (outptr - MAXLINE - 1, outptr - 1, size);
+            memmove (outptr - MAXLINE - 1, outptr - 1, size); /* regions overlap when more than MAXLINE bytes remain */
             outptr -= MAXLINE;
             p = outptr + size - 1;
           }
@@ -1147,7 +1147,7 @@ static void refill_buffer () {
         size = end - outptr + 1;	/* Include newline */
         if (outptr - cur_lbuf->buf > 2 * MAXLINE)
           {
-            memcpy (outptr - MAXLINE - 1, outptr - 1, size);
+            memmove (outptr - MAXLINE - 1, outptr - 1, size); /* regions overlap when more than MAXLINE bytes remain */
             outptr -= MAXLINE;
             p = outptr + size - 1;
           }
